@@ -145,7 +145,13 @@ def run_c02(ck):
     results = common.run_jobs(jobs, ck.wd + "/jobs")
     ck.evaluations += len(jobs)
     resolver_traces(ck, names, jobs, results, sample_every=200)
+    # semantic level: the claimed final state is certified against the rules (Asm.tla Certificate)
+    from . import asm as asmprops
+    asmprops.certificates(ck, ck.seed + 4000, 150 if quick else 2500,
+                          [1, 2, 3, 4, 6, 10, 30] if quick else list(range(1, 31)),
+                          [(True, True), (False, False)] if quick else SWITCHES)
     ck.assumptions += [
+        "semantic certificate (Asm.tla Certificate) on generated abstract programs with value-dependent sizes: typed-width families, assert-selected forms, pc-relative forms, signed forms",
         "protocol-level certificate: the final pass is a last pass in which every item reported Resolved, with label values and cursors re-derived by the spec; "
         "that the stored encodings are what the RULES prescribe for the final symbol values is decided by the semantic trace specification (see C01/C02-full)",
         "runs whose addresses or sizes exceed 2^30 are unjudged",
